@@ -130,8 +130,33 @@ func jpCells(prog *Program, evaluators []string) ([]jpCell, error) {
 				// container switches: nested type switches whose cases include a slice or map type
 				// (outermost ones only; a union has one per member type)
 				var css []*ast.TypeSwitchStmt
+				var ifCells []*ast.CaseClause
+				var ifVars []string
 				for _, s := range cc.Body {
 					ast.Inspect(s, func(k ast.Node) bool {
+						// the same test written as `if tv, ok := prev.(gen.Array); ok { ... }` (GetNodes, FirstNode):
+						// a cell of its own, keyed like a clause of a container switch
+						if is, ok := k.(*ast.IfStmt); ok {
+							if as, ok := is.Init.(*ast.AssignStmt); ok && len(as.Lhs) == 2 && len(as.Rhs) == 1 {
+								if ta, ok := ast.Unparen(as.Rhs[0]).(*ast.TypeAssertExpr); ok && ta.Type != nil {
+									okID, _ := as.Lhs[1].(*ast.Ident)
+									condID, _ := ast.Unparen(is.Cond).(*ast.Ident)
+									tvID, _ := as.Lhs[0].(*ast.Ident)
+									isCont := false
+									if tt := info.TypeOf(ta.Type); tt != nil {
+										switch tt.Underlying().(type) {
+										case *types.Slice, *types.Map:
+											isCont = true
+										}
+									}
+									if isCont && okID != nil && condID != nil && tvID != nil && okID.Name == condID.Name {
+										ifCells = append(ifCells, &ast.CaseClause{Case: is.Pos(), List: []ast.Expr{ta.Type}, Body: is.Body.List})
+										ifVars = append(ifVars, tvID.Name)
+										return false
+									}
+								}
+							}
+						}
 						t2, ok := k.(*ast.TypeSwitchStmt)
 						if !ok {
 							return true
@@ -151,6 +176,43 @@ func jpCells(prog *Program, evaluators []string) ([]jpCell, error) {
 						}
 						return true
 					})
+				}
+				addCell := func(cc2 *ast.CaseClause, cont, contVar string) {
+					// split on the last-fragment test
+					var split *ast.IfStmt
+					for _, s := range cc2.Body {
+						ast.Inspect(s, func(k ast.Node) bool {
+							if is, ok := k.(*ast.IfStmt); ok && split == nil && isLastTest(is.Cond) && is.Else != nil {
+								split = is
+							}
+							return split == nil
+						})
+					}
+					if split == nil {
+						var sb strings.Builder
+						for _, s := range cc2.Body {
+							sb.WriteString(printNode(prog.Fset, s))
+							sb.WriteString("\n")
+						}
+						cells = append(cells, jpCell{Clause: cc2, ContVar: contVar, Eval: ev, Frag: fname, Cont: cont, Pos: "all", Skel: normaliseSkeleton(sb.String(), contVar), At: cc2.Pos()})
+						return
+					}
+					// prefix (statements before the split, with the split replaced) is shared by both positions
+					var prefix strings.Builder
+					for _, s := range cc2.Body {
+						if nodeWithin(s, split) {
+							// print the statement with the split blanked out: approximate by printing up to the split
+							full := printNode(prog.Fset, s)
+							sp := printNode(prog.Fset, split)
+							prefix.WriteString(strings.Replace(full, sp, "SPLIT", 1))
+						} else {
+							prefix.WriteString(printNode(prog.Fset, s))
+						}
+						prefix.WriteString("\n")
+					}
+					pre := normaliseSkeleton(prefix.String(), contVar)
+					cells = append(cells, jpCell{Clause: cc2, ContVar: contVar, Eval: ev, Frag: fname, Cont: cont, Pos: "last", Skel: pre + " ## " + normaliseSkeleton(printNode(prog.Fset, split.Body), contVar), At: split.Body.Pos()})
+					cells = append(cells, jpCell{Clause: cc2, ContVar: contVar, Eval: ev, Frag: fname, Cont: cont, Pos: "inner", Skel: pre + " ## " + normaliseSkeleton(printNode(prog.Fset, split.Else), contVar), At: split.Else.Pos()})
 				}
 				for ci, cs := range css {
 					occ := ""
@@ -172,42 +234,17 @@ func jpCells(prog *Program, evaluators []string) ([]jpCell, error) {
 						if o := info.Implicits[cc2]; o != nil {
 							contVar = o.Name()
 						}
-						// split on the last-fragment test
-						var split *ast.IfStmt
-						for _, s := range cc2.Body {
-							ast.Inspect(s, func(k ast.Node) bool {
-								if is, ok := k.(*ast.IfStmt); ok && split == nil && isLastTest(is.Cond) && is.Else != nil {
-									split = is
-								}
-								return split == nil
-							})
-						}
-						if split == nil {
-							var sb strings.Builder
-							for _, s := range cc2.Body {
-								sb.WriteString(printNode(prog.Fset, s))
-								sb.WriteString("\n")
-							}
-							cells = append(cells, jpCell{Clause: cc2, ContVar: contVar, Eval: ev, Frag: fname, Cont: cont, Pos: "all", Skel: normaliseSkeleton(sb.String(), contVar), At: cc2.Pos()})
-							continue
-						}
-						// prefix (statements before the split, with the split replaced) is shared by both positions
-						var prefix strings.Builder
-						for _, s := range cc2.Body {
-							if nodeWithin(s, split) {
-								// print the statement with the split blanked out: approximate by printing up to the split
-								full := printNode(prog.Fset, s)
-								sp := printNode(prog.Fset, split)
-								prefix.WriteString(strings.Replace(full, sp, "SPLIT", 1))
-							} else {
-								prefix.WriteString(printNode(prog.Fset, s))
-							}
-							prefix.WriteString("\n")
-						}
-						pre := normaliseSkeleton(prefix.String(), contVar)
-						cells = append(cells, jpCell{Clause: cc2, ContVar: contVar, Eval: ev, Frag: fname, Cont: cont, Pos: "last", Skel: pre + " ## " + normaliseSkeleton(printNode(prog.Fset, split.Body), contVar), At: split.Body.Pos()})
-						cells = append(cells, jpCell{Clause: cc2, ContVar: contVar, Eval: ev, Frag: fname, Cont: cont, Pos: "inner", Skel: pre + " ## " + normaliseSkeleton(printNode(prog.Fset, split.Else), contVar), At: split.Else.Pos()})
+						addCell(cc2, cont, contVar)
 					}
+				}
+				ifSeen := map[string]int{}
+				for i, ic := range ifCells {
+					name := types.ExprString(ic.List[0])
+					ifSeen[name]++
+					if ifSeen[name] > 1 {
+						name += fmt.Sprintf("#%d", ifSeen[name])
+					}
+					addCell(ic, name, ifVars[i])
 				}
 			}
 			return false
